@@ -186,6 +186,13 @@ def check_scorer(acc, name, n, p, which, lattice=False):
             "1d-wrong": (np.array(g[:-1]), "ValueError"),
             "object-float-strings": (np.array([[str(x) for x in g]]), "ValueError"),
         }
+        # wrong-width arrays whose entries COULD be re-chunked into valid rows of the expected width (2 valid rows laid
+        # out as one flat vector or with any other width): the width itself is wrong, so ValueError
+        flat = g + g
+        mal["1d-two-rows-flat"] = (np.array(flat), "ValueError")
+        for wdt in range(1, 2 * k + 1):
+            if (2 * k) % wdt == 0 and wdt != k:
+                mal[f"rechunkable-{2 * k // wdt}x{wdt}"] = (np.array(flat).reshape(-1, wdt), "ValueError")
         for mname, (arr, want) in mal.items():
             acc.ev()
             st, out = call(sc, arr)
